@@ -438,7 +438,9 @@ H_RecvRet(s, r, l) ==
          \* or the peer's transfers were contradictory, aborted or beyond the credit issued
        + Chk("C10_NoSpuriousError", \/ ~ConnUp(s) \/ s.garbage \/ y.pDet \/ y.eDet \/ ~y.pAtt \/ y.broken \/ r.res.class = "Cancelled" \/ s.appTeardown
                                     \/ SessByE(s, y.ech) = 0 \/ ~LiveE(s.ss[SessByE(s, y.ech)]) \/ s.ss[SessByE(s, y.ech)].pEnded
-                                    \/ \E n \in DOMAIN y.inq : y.inq[n].contra \/ y.inq[n].aborted \/ ~y.inq[n].within, l, r.res.class))
+                                    \/ \E n \in DOMAIN y.inq : y.inq[n].contra \/ y.inq[n].aborted \/ ~y.inq[n].within, l,
+                                    \* (a refusal for lack of credit after a sender's flow overtook queued deliveries is the double count of the open C09 finding)
+                                    IF y.sflowGap /\ r.res.class = "TransferLimitExceeded" THEN "after_sender_flow" ELSE r.res.class))
   ELSE IF j = 0 THEN R(s, Fail("C10_NotBefore", l, "") + (IF \E n \in DOMAIN y.inq : y.inq[n].m = r.res.m /\ y.inq[n].contra THEN Fail("C10_Contradiction", l, "") ELSE 0)
                                 + (IF \E n \in DOMAIN y.inq : y.inq[n].m = r.res.m /\ y.inq[n].aborted THEN Fail("C10_Abort", l, "") ELSE 0))
   ELSE LET e == y.inq[j] IN
